@@ -17,19 +17,26 @@ from concurrent.futures import ThreadPoolExecutor
 import vlib
 from vlib import log
 
+_T0 = time.time()
+
+
+def _el():
+    return "+%ds" % (time.time() - _T0)
+
+
 WD = os.path.join(vlib.WORK, "msgval" if vlib.HARNESS == vlib.HARNESS_SRC else "msgval-" + os.path.basename(os.path.dirname(vlib.HARNESS)))
 KNOWN_GAP = "partial-sig-outside-slot-window"
 
 # family: cfg stem, committee size, fork epoch code, sweep depth (quick, thorough), prefixes bound (quick, thorough),
 #         perturbed messages (quick, thorough), concurrent batches (thorough)
-FAMILIES = [
-    dict(name="core", n=4, fork=100000, depth=(3, 4), paths=(350, 3000), bytes=(24, 24), conc=True),
+FAMILIES = [  # heaviest first
     dict(name="cons", n=4, fork=100000, depth=(2, 3), paths=(60, 500), bytes=(50, 400), conc=True),
-    dict(name="decided", n=4, fork=100000, depth=(2, 3), paths=(0, 800), bytes=(25, 100), conc=True),
-    dict(name="seven", n=7, fork=100000, depth=(2, 3), paths=(0, 800), bytes=(15, 100), conc=False),
-    dict(name="psig", n=4, fork=100000, depth=(2, 3), paths=(60, 600), bytes=(30, 140), conc=True),
-    dict(name="envelope", n=4, fork=-1, depth=(2, 3), paths=(0, 600), bytes=(30, 120), conc=False),
+    dict(name="core", n=4, fork=100000, depth=(3, 4), paths=(350, 3000), bytes=(24, 24), conc=True),
     dict(name="time", n=4, fork=100000, depth=(2, 3), paths=(60, 500), bytes=(10, 40), conc=False),
+    dict(name="psig", n=4, fork=100000, depth=(2, 3), paths=(60, 600), bytes=(30, 140), conc=True),
+    dict(name="seven", n=7, fork=100000, depth=(2, 3), paths=(0, 800), bytes=(15, 100), conc=False),
+    dict(name="decided", n=4, fork=100000, depth=(2, 3), paths=(0, 800), bytes=(25, 100), conc=True),
+    dict(name="envelope", n=4, fork=-1, depth=(2, 3), paths=(0, 600), bytes=(30, 120), conc=False),
 ]
 JVM_SMALL = "1g -XX:ParallelGCThreads=1 -XX:TieredStopAtLevel=1"   # short runs (attack configs, small traces)
 JVM_TRACE = "3g -XX:ParallelGCThreads=2"
@@ -151,7 +158,7 @@ def _family(fam, tier, seed, pw, binary, pool):
     out["mc_violation"] = None
     if r.violation:
         out["mc_violation"] = dict(cfg=cfg, prop=r.violation, behaviour=vlib.trace_behaviour(r.trace, "mc-cex-" + name, "mc-counterexample"))
-    log("[msgval] %-8s TLC %s: %d distinct / %d generated, alphabet %d, exhaustive=%s, %.0fs%s" %
+    log("[msgval] " + _el() + " %-8s TLC %s: %d distinct / %d generated, alphabet %d, exhaustive=%s, %.0fs%s" %
         (name, cfg, r.distinct, r.generated, out["mc"]["alphabet"], r.finished, r.wall, "  VIOLATES " + r.violation if r.violation else ""))
     # 2. sweep of the real validator over the alphabet
     base = ["-alpha", alpha_path, "-n", str(fam["n"]), "-fork", str(fam["fork"]), "-seed", str(seed)]
@@ -181,7 +188,7 @@ def _family(fam, tier, seed, pw, binary, pool):
     out["trace"] = dict(chunks=len(tv), events=sum(t["events"] for t in tv), consumed=sum(t["consumed"] for t in tv),
                         mismatches=sum(len(t["mismatches"]) for t in tv), complete=all(t["complete"] for t in tv),
                         generated=sum(t["generated"] for t in tv), samples=[m for t in tv for m in t["mismatches"]][:8])
-    log("[msgval] %-8s sweep: %d prefixes, %d calls on the real validator; trace validation: %d/%d events, %d mismatches; bytes: %d validator + %d decoder inputs" %
+    log("[msgval] " + _el() + " %-8s sweep: %d prefixes, %d calls on the real validator; trace validation: %d/%d events, %d mismatches; bytes: %d validator + %d decoder inputs" %
         (name, out["sweep"]["prefixes"], out["sweep"]["calls"], out["trace"]["consumed"], out["trace"]["events"], out["trace"]["mismatches"],
          out["bytes"]["validator_inputs"], out["bytes"]["decoder_inputs"] + out["bytes"]["record_inputs"] + out["bytes"]["subnet_inputs"]))
     out["sample"] = [ln.strip() for ln in open(tr).readlines()[2:6]]
@@ -231,7 +238,7 @@ def _run(tier, seed, binary, pw):
     res = dict(tier=tier, seed=seed, variant=pw, families=[], violations=[], divergences=0, states=0, transitions=0,
                traces=0, evaluations=0, nontrivial=0, attack_traces=0, notes=[])
     pool = ThreadPoolExecutor(8)
-    fam_pool = ThreadPoolExecutor(4 if tier == "quick" else 2)
+    fam_pool = ThreadPoolExecutor(5 if tier == "quick" else 2)
     only = os.environ.get("VERIF_MSGVAL_FAMILIES")  # development aid: restrict the run to some families (never cached)
     families = [f for f in FAMILIES if not only or f["name"] in only.split(",")]
     fam_futs = [fam_pool.submit(_family, fam, tier, seed, pw, binary, pool) for fam in families]
@@ -294,7 +301,7 @@ def _run(tier, seed, binary, pw):
         rr2, repros2 = _driver(binary, ["-mode", "replay", "-in", inp2, "-n", "4", "-fork", "-1", "-out", os.path.join(wd, "replay_signed.json")])
         rr["violations"] += rr2["violations"]
         repros += repros2
-    log("[msgval] replayed %d behaviours (%d graph cover, %d simulated, %d attack traces) on the real validator: %d divergences, %d attack steps refused" %
+    log("[msgval] " + _el() + " replayed %d behaviours (%d graph cover, %d simulated, %d attack traces) on the real validator: %d divergences, %d attack steps refused" %
         (rr["behaviours"], len(cover), len(sb), len(attacks) + len(signed), rr["counters"].get("divergences", 0), rr["counters"].get("attack_steps_refused", 0)))
     res["replay"] = dict(behaviours=rr["behaviours"], steps=rr["steps"], cover=gstat, simulated=len(sb), attack=len(attacks) + len(signed),
                          divergences=rr["counters"].get("divergences", 0), refused=rr["counters"].get("attack_steps_refused", 0),
@@ -351,7 +358,7 @@ def _run(tier, seed, binary, pw):
             res["evaluations"] += rc["steps"]
             res["traces"] += rc["behaviours"] if tv["complete"] and not tv["mismatches"] else 0
             res["transitions"] += tv["generated"]
-            log("[msgval] %-8s concurrent: %d batches of 8 goroutines under -race, %d recorded, %d unexplained by any order, %d race reports" %
+            log("[msgval] " + _el() + " %-8s concurrent: %d batches of 8 goroutines under -race, %d recorded, %d unexplained by any order, %d race reports" %
                 (fam["name"], rc["behaviours"], len(lines), len(tv["mismatches"]), races))
         res["concurrent"] = conc
     res["sigcounts"] = sigcounts
@@ -409,7 +416,7 @@ def finish(prop, tier, seed, res, t0):
                        "BLS signatures are not verified by the gate (as in the code); RSA envelopes use real generated operator keys",
                        "known findings (named deviations of the spec, reported by the monitor when the tree has them): accepted:partial-sig-outside-slot-window, accepted:slot-time-overflow"]
     samples = []
-    for f in fam[:2]:
+    for f in sorted(fam, key=lambda f: f["name"] != "core")[:2]:
         samples.append(dict(family=f["name"], alphabet_classes=f["alpha_sample"], recorded_events=f["sample"]))
     coverage = dict(states=res["states"], transitions=res["transitions"], traces_validated_against_impl=res["traces"], samples=samples,
                     evaluations=res["evaluations"], distinct_nontrivial=res["nontrivial"], rule=rule,
